@@ -1,5 +1,5 @@
-From UV Require Import Lib.Base Model.StreamRead.
+From UV Require Import Lib.Base Model.StreamRead Spec.StreamReadSpec.
 Require Extraction.
 Require Import ExtrOcamlBasic.
 Extraction Language OCaml.
-Extraction "m_c06.ml" init exec.
+Extraction "m_c06.ml" init exec monitor.
